@@ -104,7 +104,9 @@ void pool_deadlock() {
     if (phase == IN_DRAIN) {
         std::string pend;
         for (auto &t : tasks) if (!t.done && !t.dtors) pend += " task" + std::to_string(t.id);
-        pviolation("C07", "LOST_TASK", "deadlock while waiting for submitted tasks to run: never executed:%s;%s", pend.c_str(), st.c_str());
+        // tasks submitted after a stop() that never run: "a later start() works again" is C08's clause as well
+        bool after_stop = false; for (auto &t : tasks) if (!t.done && !t.dtors && t.epoch > 0) after_stop = true;
+        pviolation(after_stop ? "C07 C08" : "C07", "LOST_TASK", "deadlock while waiting for submitted tasks to run%s: never executed:%s;%s", after_stop ? " (submitted to a pool that had been stopped and was started again)" : "", pend.c_str(), st.c_str());
     }
     pviolation(phase == IN_STOP ? "C08" : "C08 C07", "DEADLOCK", "no thread can run while the owner is in %s:%s",
                phase == IN_STOP ? "stop()" : phase == IN_START ? "start()" : phase == IN_CLEAR ? "clear()" : "a getter", st.c_str());
